@@ -1,5 +1,5 @@
 import SqlModel.Control
-import SqlModel.Generated.ControlIR
+import SqlModel.Generated.ControlRun
 import SqlProps.C20
 /-!
 # C15 — pathological nesting is reported as SQLParseError, never a crash
